@@ -40,6 +40,7 @@ typedef struct {
   /* timers profile */
   int conn_sit, srv_sit, offset_us, burst, second_client, idle_after_timeout;
   int backoff; /* busy connection whose outstanding query is in a backed-off attempt (deadline far away) */
+  int long_timeout; /* one silent query with a per-try timeout above one second (seconds part of the back end's sleep) */
 } et_cfg_t;
 static et_cfg_t et_cfg;
 
